@@ -575,24 +575,26 @@ async fn serve_once(sc: &SConf, evs: &[Ev], deadline: Duration) -> Attempt {
                 }
             }
             #[cfg(feature = "hooks")]
+            let mut fewer_failures = false;
+            #[cfg(feature = "hooks")]
             if let Some(n) = errs {
-                // the loop now runs through its failures; at the n-th the hook gives the descriptors back.  More than the
-                // threshold: the loop ends before, then the harness restores them.
-                let t1 = Instant::now();
-                while inject::ARMED.load(std::sync::atomic::Ordering::SeqCst) && t1.elapsed() < Duration::from_secs(10) {
-                    if n > 100 && inject::FAILS.load(std::sync::atomic::Ordering::SeqCst) >= 100 {
-                        tokio::time::sleep(Duration::from_millis(150)).await; // the 101st failure and the end of the task
+                // the loop now runs through its failures (microseconds each); at the n-th the hook gives the descriptors
+                // back.  A loop that ends before (more than the threshold, or whatever the code does) stops counting: then
+                // the harness gives them back and looks at what becomes of the connection.
+                let mut seen = 0;
+                let mut since = Instant::now();
+                while inject::ARMED.load(std::sync::atomic::Ordering::SeqCst) {
+                    let now = inject::FAILS.load(std::sync::atomic::Ordering::SeqCst);
+                    if now != seen {
+                        seen = now;
+                        since = Instant::now();
+                    } else if since.elapsed() > Duration::from_millis(if seen == 0 { 3000 } else { 500 }) {
                         break;
                     }
                     tokio::time::sleep(Duration::from_millis(2)).await;
                 }
-                let reached = inject::FAILS.load(std::sync::atomic::Ordering::SeqCst);
                 inject::restore();
-                if reached < n.min(100) {
-                    // accept() was not called that often (the connection did not arrive?): not executed
-                    trouble = 3;
-                    break 'evs;
-                }
+                fewer_failures = inject::FAILS.load(std::sync::atomic::Ordering::SeqCst) < n.min(100);
             }
             let mut stream = match stream {
                 Some(s) => s,
@@ -627,12 +629,19 @@ async fn serve_once(sc: &SConf, evs: &[Ev], deadline: Duration) -> Attempt {
                 break 'evs;
             }
             #[cfg(feature = "hooks")]
-            if errs.is_some() && cut && statuses.is_empty() && !inject::was_accepted(my_port) {
-                // the kernel completed the handshake, but accept() never returned this connection and it was reset when
-                // the listener was closed: nobody accepted it
-                tokio::time::sleep(Duration::from_millis(40)).await;
-                results.push(X::L(vec![X::N(3)]));
-                continue;
+            if errs.is_some() {
+                if cut && statuses.is_empty() && !inject::was_accepted(my_port) {
+                    // the kernel completed the handshake, but accept() never returned this connection and it was reset when
+                    // the listener was closed: nobody accepted it
+                    tokio::time::sleep(Duration::from_millis(40)).await;
+                    results.push(X::L(vec![X::N(3)]));
+                    continue;
+                }
+                if fewer_failures {
+                    // the loop lives and accept() did not fail as often as wanted (it was not called in time): not executed
+                    trouble = 3;
+                    break 'evs;
+                }
             }
             let _ = my_port;
             if cut && k + 1 == times {
